@@ -14,6 +14,7 @@ type Options struct {
 	KeepComments bool
 	Positions    bool
 	ErrorFlags   bool // string/url EOF flags and parse-error kinds
+	MergeWS      bool // adjacent white-space tokens (left by a skipped comment) count as one, at every depth
 }
 
 func q(s string) string { return fmt.Sprintf("%q", s) }
@@ -60,9 +61,18 @@ func pos(t pa.Token, o Options) string {
 }
 
 func write(sb *strings.Builder, l []pa.Token, o Options) {
+	prevWS := false
 	for _, t := range l {
 		if _, isC := t.(pa.Comment); isC && !o.KeepComments {
 			continue
+		}
+		if _, isWS := t.(pa.Whitespace); isWS {
+			if prevWS && o.MergeWS {
+				continue
+			}
+			prevWS = true
+		} else {
+			prevWS = false
 		}
 		One(sb, t, o)
 		sb.WriteByte(' ')
